@@ -144,6 +144,11 @@ def concretize_arg(model, world, sortname: str, entry, reg, strings: list):
         return s
     if kind == 'charset':
         return ('charset', entry[1])
+    if kind == 'arrlist':
+        n = _int(model, entry[2])
+        if n > 200:
+            raise NotConcretizable('list too long')
+        return [concretize_arg(model, world, '', ('term', z3.Select(entry[1], i)), reg, strings) for i in range(n)]
     if kind == 'char':
         code = _int(model, entry[1])
         fs = [world.uf(f'chr_{p}', z3.IntSort(), z3.BoolSort()) for p in CC.PREDS]
@@ -184,13 +189,21 @@ def concretize_inputs(model, world, contract, ob, reg):
     for name, sortname in contract.sig.items():
         sortname = sortname.strip()
         if sortname in reg.classes and 'fields' in reg.classes[sortname]:
-            fields = {}
-            for fname, fsort in reg.classes[sortname]['fields'].items():
-                e = ob.vars.get(f'{name}.{fname}')
-                if e is None:
-                    raise NotConcretizable(f'no symbol for {name}.{fname}')
-                fields[fname] = concretize_arg(model, world, fsort, e, reg, strings)
-            out[name] = ('prec', sortname, fields)
+            def prec(prefix, cls):
+                fields = {}
+                for fname, fsort in reg.classes[cls]['fields'].items():
+                    if fsort in reg.classes and 'fields' in reg.classes[fsort]:
+                        fields[fname] = prec(f'{prefix}.{fname}', fsort)
+                        continue
+                    e = ob.vars.get(f'{prefix}.{fname}')
+                    if e is None:
+                        raise NotConcretizable(f'no symbol for {prefix}.{fname}')
+                    fields[fname] = concretize_arg(model, world, fsort, e, reg, strings)
+                return ('prec', cls, fields)
+            out[name] = prec(name, sortname)
+            continue
+        if sortname == 'None':
+            out[name] = None
             continue
         e = ob.vars.get(name)
         if e is None:
@@ -212,7 +225,7 @@ def concretize_inputs(model, world, contract, ob, reg):
 
 
 def load_real(key: str):
-    rel, qual = key.split(':', 1)
+    rel, qual = key.split('#')[0].split(':', 1)
     modname = rel[:-3].replace('/', '.')
     mod = importlib.import_module(modname)
     obj = mod
@@ -251,6 +264,11 @@ def concrete_env(reg):
             return False
 
     env.update(int_ok=int_ok, uint_ok=uint_ok, float_ok=float_ok, implies=lambda a, b: (not a) or b, old=lambda x: x)
+    try:
+        from tatsu.input.infos import LineIndexInfo, LineInfo, PosLine
+        env.update(PosLine=PosLine, LineInfo=LineInfo, LineIndexInfo=LineIndexInfo)
+    except ImportError:
+        pass
     return env
 
 
@@ -276,6 +294,11 @@ def run_real(contract, reg, inputs: dict, builders: dict):
             args[name] = v
     env = concrete_env(reg)
     env.update(args)
+    # ghosts of the contract are recomputed from the real objects (the model's ghost values describe the
+    # model's copy of the data, which the builder re-derives from the text)
+    gb = builders.get('ghosts:' + contract.key.split('#')[0])
+    if gb is not None:
+        env.update(gb(args))
     for clause in contract.requires:
         try:
             if not eval(clause, dict(env)):
